@@ -597,16 +597,32 @@ def _chunks(rows, n):
   return [rows[i:i + n] for i in range(0, len(rows), n)]
 
 
-def ref_batched(op, recs, skip=False):
+def ref_batched(op, recs, skip=False, info=None):
   """apply/select with batch sizes over an error-free stream: the rows of all incoming column batches, the function
   applied to groups of `fn_batch` rows (or per incoming batch), the results re-grouped into `batch` rows.  With
-  skipping on (`skip`) a group whose call fails is left out."""
-  cols = [op.inputs(r) for r in recs]
+  skipping on (`skip`) a group whose call fails is left out.
+
+  With skipping on and `info` given, a RECORD that cannot enter the operator at all (its inputs cannot be read, or —
+  with fn_batch — they are not equally long columns) is an element whose processing fails: it is left out and counted
+  in `info` (C12: "elements after a failing one are never silently lost").  Whether the error the code raises for it
+  is skippable is not for the reference to say, so such a reference result only binds a run that ended WITHOUT an
+  error (`lenient`)."""
   nin = len(op.in_keys)
-  if op.fb:
-    for c in cols:
-      if not all(isinstance(x, (list, tuple)) for x in c) or len({len(x) for x in c}) > 1:
+  cols = []
+  for r in recs:
+    try:
+      c = op.inputs(r)
+      if op.fb and (not all(isinstance(x, (list, tuple)) for x in c) or len({len(x) for x in c}) > 1):
         raise Routing('not a batch of equally long columns')
+    except Routing:
+      if skip and info is not None:
+        info['skipped_records'] = info.get('skipped_records', 0) + 1
+        if op.fb:
+          info['fnbatch_skipped'] = True
+        continue
+      raise
+    cols.append(c)
+  if op.fb:
     rows = [tuple(c[i][j] for i in range(nin)) for c in cols for j in range(len(c[0]))] if nin else []
     groups = [[list(col) for col in zip(*g)] for g in _chunks(rows, op.fb)]
   else:
@@ -706,6 +722,7 @@ def _reference(case):
   # batched chains: operator by operator over the whole stream; defined for failure-free runs, errors are reported
   # against a prefix
   recs, err = [], None
+  info = {}
   for i, r in enumerate(items):
     if i in fail:
       if (src.get('src_ignore') or ignore) and fail[i] in SKIPPABLE:
@@ -717,7 +734,7 @@ def _reference(case):
     nxt = []
     if (op.b or op.fb) and op.op != 'assign':
       try:
-        nxt = ref_batched(op, recs, skippable('ValueError'))
+        nxt = ref_batched(op, recs, skippable('ValueError'), info if err is None else None)
       except CallError as e:
         return dict(out=None, err=err or ('call', e.kind), logs=None, exact=False)
       except Routing:
@@ -741,4 +758,5 @@ def _reference(case):
         if y is not _DROPPED:
           nxt.append(y)
     recs = nxt
-  return dict(out=[enc(x) for x in recs], err=err, logs=logs() if err is None else None, exact=False)
+  return dict(out=[enc(x) for x in recs], err=err, logs=logs() if err is None else None, exact=False,
+              lenient=bool(info.get('skipped_records')), fnbatch_skipped=bool(info.get('fnbatch_skipped')))
